@@ -153,7 +153,8 @@ Inductive case :=
 | CPass (c : cfg) (e : ephem) (daemons : list pod) (nodes : list snode) (tmpls : list tment) (pods : list qpod)
         (views : list exobs) (o : obs)
 | CRerun (all tolpns has_tmpls : bool) (e : ephem) (daemons : list pod) (sn : snode) (pods : list pod) (real_ok : bool)
-| CSync (segs : list (list cop * bool * nat)).
+| CSync (segs : list (list cop * bool * nat))
+| CSyncFirst (m : cstate) (tracked_nodes api_claims api_nodes : list string) (list_fails : bool) (obs : bool).
 
 Definition tag (ok : bool) (t : string) : list string := if ok then [] else [t].
 
@@ -183,6 +184,10 @@ Definition check_case (x : case) : list string :=
       let '(a, b, g) := sync_run (mkP [] O) segs in
       tag a "corr:Cluster.Synced" ++ tag b "corr:Provisioner.Reconcile-guard" ++
       tag g "oracle:scheduling-pass-while-a-nodeclaim-is-unlaunched"
+  | CSyncFirst m tn ac an fails obs =>
+      tag (Bool.eqb (synced_first m tn ac an fails) obs) "corr:Cluster.Synced-first-sync" ++
+      (* the property: a controller that has an unlaunched NodeClaim in its state never reports synced *)
+      tag (negb (obs && existsb (fun kv => String.eqb (snd kv) "") m)) "oracle:synced-while-a-nodeclaim-is-unlaunched"
   end.
 
 Definition check_all (cs : list (Z * case)) : list (Z * string) :=
